@@ -174,9 +174,13 @@ pub fn native_minmax<T, const LESS: bool>(
                     let Some(first) = t.iter().next() else {
                         return Ok(Value::Nil);
                     };
+                    // the best key so far lives only in this function while further callbacks
+                    // run (and allocate): keep it in a guarded table so the collector sees it
+                    let mut scratch = vm.init_table()?;
                     vm.stack_push(*first.1)?;
                     vm.stack_push(*first.0)?;
                     let mut max_key = vm.run_function(key_fn)?;
+                    scratch.as_table_mut().unwrap().insert(0, max_key)?;
                     let mut i = 0;
 
                     for (j, (k, value)) in t.iter().enumerate().skip(1) {
@@ -186,6 +190,7 @@ pub fn native_minmax<T, const LESS: bool>(
                         if if LESS { key < max_key } else { key > max_key } {
                             i = j;
                             max_key = key;
+                            scratch.as_table_mut().unwrap().insert(0, max_key)?;
                         }
                     }
                     let k = t.nth_key(i);
@@ -220,10 +225,18 @@ pub fn native_sorted<T>(
                     // TODO:
                     // sort in place?
                     let mut result = Vec::with_capacity(t.len());
-                    for (k, v) in t.iter() {
+                    // the computed keys live only in `result` while further callbacks run (and
+                    // allocate): keep them in a guarded table so the collector sees them
+                    let mut scratch = vm.init_table()?;
+                    for (i, (k, v)) in t.iter().enumerate() {
                         vm.stack_push(*v)?;
                         vm.stack_push(*k)?;
                         let key = vm.run_function(key_fn)?;
+                        // growing `scratch` allocates too: the new key stays on the stack until
+                        // it is stored
+                        vm.stack_push(key)?;
+                        scratch.as_table_mut().unwrap().insert(i as i64, key)?;
+                        vm.stack_pop();
                         result.push((key, k, v));
                     }
                     result.sort_by(|(a, _, _), (b, _, _)| {
